@@ -126,19 +126,19 @@ theorem note_roundtrip_fails : ¬ NoteRoundtrip_full := by
 
 /-! ### the repaired cases (regression witnesses: each was lost by the text form before its repair) -/
 
-/-- bbbdf5d: `x3.e.o(1)` keeps its octave -/
+/-- 3b164a5: `x3.e.o(1)` keeps its octave -/
 theorem x_octave_kept :
     let n : Note := { kind := .x, val := 3, oct := 1, dur := 1/2 }
     (noteCode n).text = "x3.e.o(1)" ∧ evalCode (noteCode n) = .ok n := by
   decide +kernel
 
-/-- 0a31493: `d0.f` keeps its dynamics -/
+/-- bb99a14: `d0.f` keeps its dynamics -/
 theorem drum_dynamics_kept :
     let n : Note := { kind := .d, val := 0, oct := 0, amp := 96 }
     (noteCode n).text = "d0.f" ∧ evalCode (noteCode n) = .ok n := by
   decide +kernel
 
-/-- e90a01c: `x0.m` keeps its mode, a drum note its accidental; amplitude 0 is written `.set_amp(0)` -/
+/-- 5da6dce: `x0.m` keeps its mode, a drum note its accidental; amplitude 0 is written `.set_amp(0)` -/
 theorem unpitched_mode_kept :
     let n : Note := { kind := .x, val := 0, oct := 0, mode := some .m }
     let d : Note := { kind := .d, val := 4, oct := -1, acc := some .dim }
